@@ -60,6 +60,15 @@ def quad_model(n_dims):
     return nonneg_model(n_dims).map(_snap_slivers)
 
 
+def peak_missed(got, ref):
+    """virocon's nquad over [0, inf) returned (almost) nothing where the exact integral is substantial: the integrand
+    is a narrow peak far from 0 that QUADPACK's nodes miss (known finding KF-C06-1); a wrong factor, limit or argument
+    order gives O(1) relative errors in most cases instead, and the incidence of this signature is bounded (RATE_LIMITS)"""
+    got, ref = np.asarray(got, dtype=float), np.asarray(ref, dtype=float)
+    off = ~close(got, ref, 2e-4, 2e-6)
+    return bool(np.all(np.isfinite(got)) and np.all(got >= 0) and off.any() and np.all(got[off] < 1e-2 * ref[off]) and np.all(ref[off] > 1e-8))
+
+
 def is_nontrivial(spec):
     rng = refmodel.approx_range(spec)
     return max(refmodel.dependence_variation(spec, i, rng) for i in range(len(spec))) >= 0.1
@@ -339,6 +348,9 @@ def check_marg(case, ctx):
             # crossing x, a conditioner whose support starts above 0) is 1e-5 .. 1e-4 relative (observed 2e-5, 7e-5);
             # a wrong factor, argument order or limit is an O(1e-2 .. 1) error
             if got.shape != rp.shape or not close(got, rp, 2e-4, 1e-7).all():
+                if got.shape == rp.shape and peak_missed(got, rp):
+                    ctx.violation("marginal_pdf:peak_missed_by_nquad:2d", f"dim={dim} x={np.asarray(arg).tolist()} got={got.tolist()} reference={rp.tolist()} conditional_on={[l.get('conditional_on') for l in spec]}")
+                    return
                 ctx.violation(f"marginal_pdf:{label}:{'cond' if conditional else 'uncond'}", f"dim={dim} x={np.asarray(arg).tolist()} got={got.tolist()} reference={rp.tolist()} conditional_on={[l.get('conditional_on') for l in spec]}")
         if label == "int":
             continue  # marginal_cdf costs seconds per point: one float point only
@@ -351,6 +363,9 @@ def check_marg(case, ctx):
         if ok:
             got = np.asarray(got, dtype=float)
             if got.shape != rc[:1].shape or not close(got, rc[:1], 2e-4, 2e-6).all():
+                if got.shape == rc[:1].shape and peak_missed(got, rc[:1]):
+                    ctx.violation("marginal_cdf:peak_missed_by_nquad:2d", f"dim={dim} x={np.asarray(arg[:1]).tolist()} got={got.tolist()} reference={rc[:1].tolist()} conditional_on={[l.get('conditional_on') for l in spec]}")
+                    return
                 ctx.violation(f"marginal_cdf:{label}:{'cond' if conditional else 'uncond'}", f"dim={dim} x={np.asarray(arg[:1]).tolist()} got={got.tolist()} reference={rc[:1].tolist()} conditional_on={[l.get('conditional_on') for l in spec]}")
     # marginal_icdf
     ps = np.array(sorted(case["ps"]), dtype=float)
@@ -407,7 +422,7 @@ def check_marg3d(case, ctx):
         if not cands:
             return
         dim = cands[case["dim"] % len(cands)]
-    ctx.cls(f"marg3d_dim={dim}", f"position={'last' if dim == len(spec) - 1 else 'middle'}")
+    ctx.cls(f"marg3d_dim={dim}", f"position={'last' if dim == len(spec) - 1 else 'middle'}", "marg3d_case")
     ctx.nontrivial(is_nontrivial(spec))
     rng = refmodel.approx_range(spec)
     lo, hi = rng[dim]
@@ -427,6 +442,9 @@ def check_marg3d(case, ctx):
         # nested nquad: every inner integral is only good to its absolute tolerance 1.49e-8, integrated over an outer
         # range of length ~10-30 (observed 4.5e-7 absolute on a value of 1.9e-3)
         if got.shape != (1,) or not close(got, [ref], 2e-4, 2e-6).all():
+            if got.shape == (1,) and peak_missed(got, np.array([ref])):
+                ctx.violation("marginal_pdf:peak_missed_by_nquad:3d", f"dim={dim} x={x.tolist()} got={got.tolist()} reference={ref!r} conditional_on={[l.get('conditional_on') for l in spec]}")
+                return
             ctx.violation(f"marginal_pdf:3d:dim{dim}:{refmodel.structure_name(spec)}", f"dim={dim} x={x.tolist()} got={got.tolist()} reference={ref!r} conditional_on={[l.get('conditional_on') for l in spec]}")
 
 
@@ -438,6 +456,13 @@ def strat_marg3d(tier):
         st.floats(0.15, 0.7),
     )
 
+
+# (signature prefix, class whose count is the denominator, max fraction, min denominator)
+RATE_LIMITS = [
+    ("marginal_pdf:peak_missed_by_nquad:2d", "marg/marg_dim=conditional", 0.10, 20),
+    ("marginal_cdf:peak_missed_by_nquad:2d", "marg/marg_dim=conditional", 0.10, 20),
+    ("marginal_pdf:peak_missed_by_nquad:3d", "marg3d/marg3d_case", 0.15, 12),
+]
 
 PARTS = [
     Part("pdf", check_pdf, strat_pdf, quick=4000, thorough=100000, min_nontrivial_frac=0.3),
